@@ -54,7 +54,7 @@ METHODS = {0: "brute", 1: "vptree", 2: "covertree"}
 MAX_CRASHES_PER_STREAM = 6
 # the geodesic routine opens an OpenMP region per matrix: two threads exercise it without 16 spinning ones
 RUN_ENV = {"OMP_NUM_THREADS": "2", "OMP_WAIT_POLICY": "passive"}
-SIG_F3 = "F3:is_connected-decides-reachability-from-sample-0-only"
+SIG_F3 = "F3-connectivity-from-sample-0"
 
 
 # ----------------------------------------------------------------------------- running
